@@ -18,6 +18,7 @@ Property theorems only; lemmas live in `Gsu/Proofs/Ordset.lean`, `Gsu/Proofs/Ran
 -/
 import Gsu.Proofs.Ordset
 import Gsu.Proofs.Ranges
+import Gsu.Proofs.RangesIns
 namespace Gsu.Props.C39
 open Gsu.Ordset
 
@@ -98,12 +99,18 @@ Full statement (DESIGN `ranges_contains_iff`, `ranges_disjoint_sorted`): after a
 `Insert(from ≤ to)` that did not return Full, `Contains v` ⟺ some inserted range covers `v`, and the
 stored slots are ascending, pairwise disjoint, with `tree.slots[ti].val = leaf_ti.slots[0].from`.
 
-Proved below: the *query* half for every state satisfying that invariant (small and tree form,
-stale slots unconstrained), the base case, and the two facts the coalescing loop rests on.
-Missing: preservation of `RangesOK` by `Ranges.insert` (the iterator / remove / merge loop across
-leaves) and `covered (insert rs f t) = covered rs ∪ [f,t]`. These are tied by the correspondence
-only: the suite compares the whole arrays with the mirror after every history and checks exactly
-this invariant (`c39inv`) and the coverage on the real structure after every `Insert`.
+Proved below:
+* the *query* half for every state satisfying that invariant, leaf form and tree form, stale slots
+  unconstrained (`ranges_contains_iff_partial`);
+* the *update* half for the leaf form (`tree == nil`): one `Insert` with room keeps the invariant and
+  adds exactly `[from, to]` to the covered set — through the mirror of `leaf.insert`, `iter.prev`,
+  the `prev` pointer, `merge`, `iter.remove` with its stale slots (`ranges_insert_leaf`) — hence both
+  statements for every history of at most `nodeSize` inserts (`ranges_contains_iff_leaf_partial`,
+  `ranges_disjoint_sorted_partial`).
+Missing: preservation of the invariant by `Insert` once the tree exists (split, the iterator
+crossing leaves, removal of emptied leaves, separator update). That part is tied by the
+correspondence only: the suite compares the whole arrays with the mirror and checks exactly this
+invariant (`c39inv`) and the coverage on the real structure after every `Insert`.
 -/
 
 /-- `Contains(v)` on any state satisfying the invariant (disjoint ascending slots per leaf,
@@ -113,10 +120,32 @@ theorem ranges_contains_iff_partial (rs : Ranges) (v : Key)
     rs.contains Gsu.Ranges.genParams v = true ↔ ∃ s ∈ rs.flat, s.frm ≤ v ∧ v ≤ s.to :=
   ranges_contains_flat Gsu.Ranges.genParams rs v h
 
-/-- base case of `ranges_disjoint_sorted`: the zero value satisfies the invariant (and by the
-theorem above contains nothing) -/
-theorem ranges_disjoint_sorted_partial : RangesOK Gsu.Ranges.genParams (Ranges.empty Gsu.Ranges.genParams) :=
-  Gsu.Ranges.empty_ok _
+/-- One `Insert(f ≤ t)` into the leaf form with room: the result is again the leaf form, the
+invariant holds, at most one slot more, and the covered set grows by exactly `[f, t]`. -/
+theorem ranges_insert_leaf (l : Gsu.Ranges.Leaf) (f t : Key) (hft : f ≤ t)
+    (h : Gsu.Ranges.LeafOK Gsu.Ranges.genParams l) (hsz : l.size < Gsu.Ranges.genParams.nodeSize) :
+    ∃ l' r, Ranges.insert Gsu.Ranges.genParams (.small l) f t = (.small l', .inc r) ∧
+      Gsu.Ranges.LeafOK Gsu.Ranges.genParams l' ∧ l'.size ≤ l.size + 1 ∧
+      ∀ v, covL l'.live v ↔ (covL l.live v ∨ (f ≤ v ∧ v ≤ t)) :=
+  insert_small Gsu.Ranges.genParams l f t hft h hsz
+
+/-- `ranges_contains_iff` for histories of at most `nodeSize` (=128) inserts with `from ≤ to`:
+`Contains v` ⟺ some inserted range covers `v`. -/
+theorem ranges_contains_iff_leaf_partial (ops : List (Key × Key)) (v : Key)
+    (hw : ∀ o ∈ ops, o.1 ≤ o.2) (hn : ops.length ≤ Gsu.Ranges.genParams.nodeSize) :
+    (runR Gsu.Ranges.genParams ops).contains Gsu.Ranges.genParams v = true ↔
+      ∃ o ∈ ops, o.1 ≤ v ∧ v ≤ o.2 := by
+  obtain ⟨l, e, hok, hcov⟩ := run_small Gsu.Ranges.genParams ops hw hn
+  rw [e, ranges_contains_flat Gsu.Ranges.genParams (.small l) v hok]
+  exact hcov v
+
+/-- `ranges_disjoint_sorted` for histories of at most `nodeSize` inserts: the invariant holds
+(ascending, pairwise disjoint, `from ≤ to`; the separator clause is vacuous in the leaf form). -/
+theorem ranges_disjoint_sorted_partial (ops : List (Key × Key))
+    (hw : ∀ o ∈ ops, o.1 ≤ o.2) (hn : ops.length ≤ Gsu.Ranges.genParams.nodeSize) :
+    RangesOK Gsu.Ranges.genParams (runR Gsu.Ranges.genParams ops) := by
+  obtain ⟨l, e, hok, _⟩ := run_small Gsu.Ranges.genParams ops hw hn
+  rw [e]; exact hok
 
 /-- `merge`: when `overlap` holds the merged slot covers exactly the union of the two -/
 theorem ranges_merge_covers (p n : Slot) (ho : overlap p n = true) (v : Key) :
